@@ -636,7 +636,7 @@ async fn run_case(env: &Env, case: Value) -> (Value, Result<Value, String>, Prob
 
 /// Cases wait on protocol timers (the drain period behind closed(), a watchdog for a predicted
 /// stranded future), so several run at once; each has its own connection.
-const CONCURRENCY: usize = 12;
+const CONCURRENCY: usize = 32;
 
 pub async fn run(cases: Vec<Value>, rep: &mut Report) {
     use futures_util::StreamExt;
